@@ -133,6 +133,7 @@ CHECKS["C04"] = dict(
     assumptions=FAPP_ASSUME,
     units=[dict(pkg="app", test="TestVerifC04App", shards_quick=16, shards_thorough=16, budget_quick=200, budget_thorough=1500),
            dict(pkg="app", test="TestVerifC04AppShortRepeat", shards_quick=8, shards_thorough=16, budget_quick=100, budget_thorough=900),
+           dict(pkg="app", test="TestVerifC04AppTimings", shards_quick=8, shards_thorough=16, budget_quick=150, budget_thorough=900),
            dict(pkg="notify", test="TestVerifC04Sizes", shards_quick=1, shards_thorough=1, budget_quick=60, budget_thorough=300)],
 )
 CHECKS["C05"] = dict(
@@ -146,6 +147,7 @@ CHECKS["C05"] = dict(
     units=[dict(pkg="app", test="TestVerifC05App", shards_quick=12, shards_thorough=16, budget_quick=200, budget_thorough=1500),
            dict(pkg="app", test="TestVerifC05AppLate", shards_quick=12, shards_thorough=16, budget_quick=200, budget_thorough=1500),
            dict(pkg="app", test="TestVerifC05AppShortRepeat", shards_quick=8, shards_thorough=16, budget_quick=100, budget_thorough=900),
+           dict(pkg="app", test="TestVerifC05AppTimings", shards_quick=8, shards_thorough=16, budget_quick=150, budget_thorough=900),
            dict(pkg="app", test="TestVerifC05AppFlap", shards_quick=8, shards_thorough=16, budget_quick=200, budget_thorough=1500),
            dict(pkg="app", test="TestVerifC05AppMuted", shards_quick=8, shards_thorough=16, budget_quick=200, budget_thorough=1500),
            dict(pkg="dispatch", test="TestVerifC05Sched", gomaxprocs=1, shards_quick=4, shards_thorough=16, budget_quick=60, budget_thorough=1500)],
